@@ -357,6 +357,56 @@ def _truth(test, env, fid):
     return None
 
 
+_LOOP_SUMMARY = {}
+_STMT_SUMMARY = {}
+
+
+def _stmt_summary(n, is_with):
+    k = (id(n), is_with)
+    if k in _STMT_SUMMARY:
+        return _STMT_SUMMARY[k]
+    touches, escapes, itemstores = [], [], []
+    roots = [it.context_expr for it in n.items] if is_with else [n]
+    for root in roots:
+        for x in ast.walk(root):
+            if isinstance(x, ast.Call) and isinstance(x.func, ast.Attribute) and isinstance(
+                    x.func.value, ast.Name) and (x.func.attr in _GROW or x.func.attr in _MAYGROW or x.func.attr in _SHRINK):
+                touches.append((x.func.value.id, x.func.attr))
+            if isinstance(x, ast.Call) and not _harmless_call(x):
+                for a in list(x.args) + [kw.value for kw in x.keywords]:
+                    if isinstance(a, ast.Name):
+                        escapes.append(a.id)
+            elif isinstance(x, (ast.Subscript, ast.Attribute)) and isinstance(x.ctx, (ast.Store, ast.Del)) \
+                    and isinstance(x.value, ast.Name):
+                itemstores.append(x.value.id)
+    _STMT_SUMMARY[k] = (touches, escapes, itemstores)
+    return _STMT_SUMMARY[k]
+
+
+def _loop_summary(n):
+    """(names stored, names grown, names shrunk, names escaping into calls / item stores) in a loop"""
+    k = id(n)
+    if k in _LOOP_SUMMARY:
+        return _LOOP_SUMMARY[k]
+    stores, grow, shrink, escapes = set(), set(), set(), set()
+    for x in ast.walk(n):
+        if isinstance(x, ast.Name) and isinstance(x.ctx, (ast.Store, ast.Del)):
+            stores.add(x.id)
+        elif isinstance(x, ast.Attribute) and isinstance(x.value, ast.Name):
+            if x.attr in _GROW or x.attr in _MAYGROW:
+                grow.add(x.value.id)
+            elif x.attr in _SHRINK:
+                shrink.add(x.value.id)
+        elif isinstance(x, ast.Call) and not _harmless_call(x):
+            for a in list(x.args) + [kw.value for kw in x.keywords]:
+                if isinstance(a, ast.Name):
+                    escapes.add(a.id)
+        elif isinstance(x, ast.Subscript) and isinstance(x.ctx, (ast.Store, ast.Del)) and isinstance(x.value, ast.Name):
+            stores.add(x.value.id)
+    _LOOP_SUMMARY[k] = (stores, grow, shrink, escapes)
+    return _LOOP_SUMMARY[k]
+
+
 def locally_feasible(events):
     """False when a test contradicts the literal value (constant / fresh empty container) a
     local holds on this path.  Locals assigned inside a loop are forgotten at the loop head
@@ -366,24 +416,15 @@ def locally_feasible(events):
         fid = id(e.frame)
         n = e.node
         if e.kind in ('for', 'for0', 'loop') and n is not None:
-            for x in ast.walk(n):
-                if isinstance(x, ast.Name) and isinstance(x.ctx, (ast.Store, ast.Del)):
-                    env.pop((fid, x.id), None)
-                elif isinstance(x, ast.Attribute) and isinstance(x.value, ast.Name) and \
-                        x.attr in _GROW | _MAYGROW | _SHRINK:
-                    st = env.get((fid, x.value.id))
-                    if st is not None and ((st[0] == 'empty' and x.attr in _GROW | _MAYGROW) or
-                                           (st[0] == 'nonempty' and x.attr in _SHRINK)):
-                        env.pop((fid, x.value.id), None)
-                elif isinstance(x, ast.Call) and not _harmless_call(x):
-                    for a in list(x.args) + [k.value for k in x.keywords]:
-                        if isinstance(a, ast.Name):
-                            st = env.get((fid, a.id))
-                            if st is not None and st[0] in ('empty', 'nonempty'):
-                                env.pop((fid, a.id), None)
-                elif isinstance(x, ast.Subscript) and isinstance(x.ctx, (ast.Store, ast.Del)) and isinstance(
-                        x.value, ast.Name):
-                    env.pop((fid, x.value.id), None)
+            if env:
+                stores, grow, shrink, escapes = _loop_summary(n)
+                for (f_, nm) in list(env):
+                    if f_ != fid:
+                        continue
+                    st = env[(f_, nm)]
+                    if nm in stores or (nm in escapes and st[0] in ('empty', 'nonempty')) or \
+                            (st[0] == 'empty' and nm in grow) or (st[0] == 'nonempty' and nm in shrink):
+                        del env[(f_, nm)]
             continue
         if e.kind == 'test':
             v = _truth(n, env, fid)
@@ -391,21 +432,16 @@ def locally_feasible(events):
                 return False
         if e.kind not in ('stmt', 'test') or n is None:
             continue
-        roots = [it.context_expr for it in n.items] if e.extra == 'with' else [n]
-        for root in roots:
-            for x in ast.walk(root):
-                if isinstance(x, ast.Call) and isinstance(x.func, ast.Attribute) and isinstance(
-                        x.func.value, ast.Name) and x.func.attr in _GROW | _MAYGROW | _SHRINK:
-                    _touch(env, (fid, x.func.value.id), x.func.attr)
-                if isinstance(x, ast.Call) and not _harmless_call(x):
-                    for a in list(x.args) + [k.value for k in x.keywords]:
-                        if isinstance(a, ast.Name):
-                            st = env.get((fid, a.id))
-                            if st is not None and st[0] in ('empty', 'nonempty'):
-                                env.pop((fid, a.id), None)
-                elif isinstance(x, (ast.Subscript, ast.Attribute)) and isinstance(x.ctx, (ast.Store, ast.Del)) \
-                        and isinstance(x.value, ast.Name):
-                    env.pop((fid, x.value.id), None)
+        touches, escapes, itemstores = _stmt_summary(n, e.extra == 'with')
+        for nm, attr in touches:
+            _touch(env, (fid, nm), attr)
+        if env:
+            for nm in escapes:
+                st = env.get((fid, nm))
+                if st is not None and st[0] in ('empty', 'nonempty'):
+                    env.pop((fid, nm), None)
+            for nm in itemstores:
+                env.pop((fid, nm), None)
         if e.kind == 'stmt' and e.extra != 'with':
             if isinstance(n, ast.Assign):
                 st = _lit_state(n.value) if len(n.targets) == 1 and isinstance(n.targets[0], ast.Name) else None
@@ -566,14 +602,20 @@ def _assigned_names(func):
     return out
 
 
+_ALIAS_CACHE = {}
+
+
 def local_aliases(func, pure_only=False):
     """Locals assigned exactly once (and not parameters) -> their RHS.
 
     Any expression is accepted as RHS (used for copy propagation of guards and
     arithmetic); callers that need locations check purity themselves."""
+    ck = (id(func.node), pure_only)
+    if ck in _ALIAS_CACHE:
+        return _ALIAS_CACHE[ck]
     asg = assigned_names(func)
     params = set(func.params) | set(func.kwonly)
-    out = {}
+    out = _ALIAS_CACHE[ck] = {}
     for name, nodes in asg.items():
         if name in params or len(nodes) != 1:
             continue
